@@ -13,6 +13,7 @@ mod oracle;
 mod refmodel;
 mod sym;
 mod text;
+mod unreach;
 mod util;
 
 use enc::*;
@@ -167,6 +168,9 @@ fn campaign(a: &Args, rng: &mut Rng, rep: &mut Report, sink: &mut Sink) {
             }
         }
         "C10" | "C19" => {
+            if p == "C19" {
+                unreach::run(rng, 3000 * sc, rep, sink);
+            }
             for _ in 0..8 * sc {
                 let pol = *rng.pick(&all);
                 setup_walk(rng, rep, sink, light, 60, pol);
